@@ -376,6 +376,15 @@ def plan_C10(seed, run, engine, tier="quick"):
         ds = dict(X=Xi.tolist(), y=np.asarray(G.gen_target(rng, Xi, "reg")).tolist(), kind="reg",
                   gen=dict(rho=0.0, density=0.8, scale_decades=0.0, kind="annihilated"))
         args = gen_estimator(rng, cls, ds, True)
+    if cls == "GeneralizedLinearEstimator" and "knobs" in args:
+        # still ample for these problem sizes (a cold start needs 2 - 10 outer iterations), but an
+        # exhausted replica no longer costs 300 x 300 prox-Newton steps of interpreted Python
+        k_ = args["knobs"]
+        k_["max_iter"] = min(k_.get("max_iter", 100), 100)
+        if "max_pn_iter" in k_:
+            k_["max_pn_iter"] = 30
+        if "max_epochs" in k_:
+            k_["max_epochs"] = 1000
     if "warm_start" in args:
         args["warm_start"] = False
     a = "F"
